@@ -16,6 +16,8 @@ mode=seq, semaphore kinds — one real object, one operation per line:
 mode=conc, semaphore kinds — real goroutines, history stamped inside the guarded region:
     run …          => <events> gauge=<peak> free=<k>     events: +t enter, -t exit, !t exit by panic (string), #t by panic (error value), ~t by Goexit, xt refused, et own Return failed
     rogue …        => borrows=<b> returns=<r> errs=<e> free=<k>    (callers that return more than they borrowed)
+    waitprobe …    => rounds=<R> early=<E> worst=<w> busy=<b>      (TaskRunner: R rounds of schedule k <= n tasks, Wait,
+                      look at the slots at once; E rounds with a slot still taken, b refused ScheduleImmediately calls)
 kind=pool mode=seq:
     getdpanic => dpanicked destroyed=<id>  (the destroy callback panicked for the expired head; not expired: as `get`)
     get | getw | getpanic => got <id> fresh=<0|1> destroyed=<ids|-> | wait destroyed=… (reached cond.Wait; taken out
@@ -460,6 +462,19 @@ def runConc (r : Report) (s : Section) (kind : String) (n : Nat) : Report := Id.
         r := r.violation s.idx l.idx s!"kind={kind} the run did not terminate ({joinSp l.obs}): holders ended but their permits / wait-group counts never came back"
       else r := runHistory r s.idx l.idx kind n l.obs
     | some "rogue" => r := runRogue r s.idx l.idx kind n l.obs
+    | some "waitprobe" =>
+      -- TaskRunner: rounds of schedule / Wait / look at the slots at once (`sem_wait_means_free`: wg = 0 → used = 0)
+      if kind ≠ "runner" then r := r.mismatch s.idx l.idx "waitprobe only for kind=runner" (joinSp l.op)
+      else if l.obs.head? = some "stuck" ∨ l.obs.head? = some "leaked" then
+        r := r.violation s.idx l.idx s!"kind={kind} Wait does not return / slots never come back although every scheduled task has ended ({joinSp l.obs})"
+      else
+        match (kv? l.obs "rounds").bind (·.toNat?), (kv? l.obs "early").bind (·.toNat?),
+              (kv? l.obs "worst").bind (·.toNat?), (kv? l.obs "busy").bind (·.toNat?) with
+        | some rounds, some early, some worst, some busy =>
+          r := r.addCover "runner-waitprobe-rounds" rounds
+          if early > 0 ∨ busy > 0 then
+            r := r.violation s.idx l.idx s!"kind={kind} Wait returned while up to {worst} slot(s) of finished tasks were still taken in {early} of {rounds} rounds, {busy} ScheduleImmediately calls refused although every task had been waited for (Done before release): capacity leaked: free={n - worst} after all holders finished, n={n}"
+        | _, _, _, _ => r := r.mismatch s.idx l.idx "rounds= early= worst= busy=" (joinSp l.obs)
     | _ => r := r.mismatch s.idx l.idx "bad-op" (joinSp l.op)
   return r
 
